@@ -88,6 +88,19 @@ def build_plz():
     return out
 
 
+def build_httpcache():
+    """Builds the repository's own HTTP cache server (tools/http_cache) from /repo's working tree."""
+    if "httpcache" in _built:
+        return _built["httpcache"]
+    os.makedirs(BUILD, exist_ok=True)
+    out = os.path.join(BUILD, "httpcache")
+    t = time.time()
+    sh(["go", "build", "-o", out, "./tools/http_cache/"], cwd=REPO, env=GOENV, timeout=1500)
+    log("[build] httpcache %.1fs" % (time.time() - t))
+    _built["httpcache"] = out
+    return out
+
+
 def build_vh():
     """Builds the harness binary `vh` against /repo's current working tree with the verif tag."""
     if "vh" in _built:
